@@ -7,7 +7,7 @@ use crate::report::{par_run, Report};
 use crate::rng::Rng;
 use serde_json::json;
 
-pub const RULE: &str = "All 22 indicators, every period 1..=64 (every period slot for multi-period ones, others varied), multipliers {0,-1,1e308,NaN,2}: seeded op programs of at least 3n+3 (and at least 60) client calls mixing ordinary values with NaN, +-inf, +-f64::MAX, subnormals, signed zeros, bars violating low<=close<=high, scalar and bar feeds, a second user bar type, reset, clone (clone then driven too), Display, Debug, period(), bincode serialize and serialize-deserialize-swap; sampled periods up to 4096; programs on Default::default() instances incl. ta::DataItem feeds and the constructors' rejection path; programs driven on a brand-new thread that constructed nothing (instance moved there, or restored there from bytes); plus long runs of 1.1*10^6 calls (4.3*10^6 thorough) for periods {1,2,3,7,64} (counters far past every wrap). Each call is wrapped in catch_unwind with the crate built with overflow checks and debug assertions; any panic or serialization error is a violation. Non-trivial: a program with >= 3n+3 next calls containing at least one non-finite or extreme input; distinct by construction (indicator, period tuple, repetition).";
+pub const RULE: &str = "All 22 indicators, every period 1..=64 (every period slot for multi-period ones, others varied), multipliers {0,-1,1e308,NaN,2}: seeded op programs of at least 3n+3 (and at least 60) client calls mixing ordinary values with NaN, +-inf, +-f64::MAX, subnormals, signed zeros, bars violating low<=close<=high, scalar and bar feeds, a second user bar type, reset, clone (clone then driven too), clone_from into a used instance built with the same or different periods, Display, Debug, period(), bincode serialize and serialize-deserialize-swap; sampled periods up to 4096; programs on Default::default() instances incl. ta::DataItem feeds and the constructors' rejection path; programs driven on a brand-new thread that constructed nothing (instance moved there, or restored there from bytes); plus long runs of 1.1*10^6 calls (4.3*10^6 thorough) for periods {1,2,3,7,64} (counters far past every wrap). Each call is wrapped in catch_unwind with the crate built with overflow checks and debug assertions; any panic or serialization error is a violation. Non-trivial: a program with >= 3n+3 next calls containing at least one non-finite or extreme input; distinct by construction (indicator, period tuple, repetition).";
 
 const MULTS: [f64; 5] = [0.0, -1.0, 1e308, f64::NAN, 2.0];
 
@@ -36,8 +36,11 @@ fn gen_op(rng: &mut Rng, kind: Kind, p_hostile: f64) -> Op {
     if r < 4 {
         return Op::Reset;
     }
-    if r < 7 {
+    if r < 6 {
         return Op::Clone;
+    }
+    if r < 7 {
+        return Op::CloneFromSwap; // clone_from into a used instance (half of them built with other periods)
     }
     if r < 9 {
         return Op::Display;
